@@ -1004,6 +1004,16 @@ def canon(rec):
     return ([mask(l) for l in rec.output], k, mask(v), [mask(m) for m in rec.messages])
 
 
+def fail_alike(sigs):
+    """EVERY build ends the program with a Rust panic (or dies on a signal) after printing the same lines: all builds fail,
+    which is C02's / C08's business, not a disagreement - the TEXT of such a panic may stem from stale memory and differ
+    from run to run within one build (round 9, `break` inside a finally entered by an exception, at top level: dev says
+    `index out of bounds: the len is 197 but the index is 32767` in 16 of 24 runs and `attempt to subtract with overflow`
+    in 8; release always the former with another number).  A timeout is not an abnormal end in this sense."""
+    return (all(s[1] in ("panic", "crash") and not (s[1] == "crash" and "timeout" in s[2]) for s in sigs)
+            and all(s[0] == sigs[0][0] for s in sigs[1:]))
+
+
 def collections(rec):
     s = rec.tagged("S")
     try:
@@ -1183,7 +1193,7 @@ def differential(ctx, cfgs, n_generated, label, aim=None):
     for j, pr in enumerate(progs):
         sigs = [canon(results[i][j]) for i in range(len(cfgs))]
         first = sigs[0]
-        same = all(s == first for s in sigs[1:])
+        same = all(s == first for s in sigs[1:]) or fail_alike(sigs)
         if same:
             agree += 1
             kind = first[1]
@@ -1211,9 +1221,10 @@ def differential(ctx, cfgs, n_generated, label, aim=None):
             again = [yvlib.run_harness(b, [pr["line"]], case_timeout_ms=6 * TIMEOUT_MS, shards=1)[0] for b in bins]
             sigs = [canon(r) for r in again]
             first = sigs[0]
-            if all(s == first for s in sigs[1:]):
+            if all(s == first for s in sigs[1:]) or fail_alike(sigs):
                 unconfirmed += 1
                 agree += 1
+                ctx.cov.setdefault("disagreements_not_confirmed_names", []).append(pr["name"])
                 continue
         disagree += 1
         if reported >= 5:
@@ -1397,7 +1408,7 @@ def replay(ctx):
     sigs = [canon(r) for r in recs]
     ctx.cov.update({"evaluations": len(bins), "distinct_nontrivial": 0, "rule": "replay of one program in the two configurations",
                     "samples": [inp.get("program", "")[:500]]})
-    if any(s != sigs[0] for s in sigs[1:]):
+    if any(s != sigs[0] for s in sigs[1:]) and not fail_alike(sigs):
         ctx.violation("builds disagree on a program (replay)", input=inp,
                       expected={"build": names[0], "out": sigs[0][0][-20:], "res": sigs[0][1], "detail": sigs[0][2], "msgs": sigs[0][3]},
                       actual={"build": names[-1], "out": sigs[-1][0][-20:], "res": sigs[-1][1], "detail": sigs[-1][2], "msgs": sigs[-1][3]},
